@@ -58,6 +58,9 @@ fn parse_comment<'n>(node: Node<'n, 'n>) -> Option<String> {
         })
 }
 
+/// The name of the Rust type for an XML name: PascalCase; `Self` is the one PascalCase keyword and can not be a raw
+/// identifier, so it gets a trailing underscore.
 pub fn xml_name_to_rust_name(xml_name: &str) -> String {
-    to_pascal_case(xml_name)
+    let rust_name = to_pascal_case(xml_name);
+    if rust_name == "Self" { "Self_".to_string() } else { rust_name }
 }
